@@ -267,4 +267,28 @@ PROPS["C05"] = dict(
     level_note="Trusted: Lean kernel, factgen, Go runtime, badger.",
 )
 
+PROPS["C15"] = dict(
+    modules=["Hub.Props.C15"],
+    gens=["c15", "c15http"],
+    rule="(1) generated entity collections from value trees (all JSON value shapes, nested entities and arrays to depth 5, default prefix, absolute http/https URIs, array refs, null-valued and "
+         "repeated properties, shuffled member order, unknown members with nested values, varying white space) serialised by the harness and parsed by the real ParseStream; the specification is "
+         "the denotation of the tree; (2) every wrongly typed member, malformed element and malformed context of a hand-kept table, alone and between well-formed elements; trailing data after "
+         "the closing bracket; deep nesting; (3) byte-level mutations (truncate, drop, insert, replace, duplicate a chunk, retype a value) of well-formed documents and random strings over the "
+         "JSON alphabet; the model is run on the token stream an independent encoding/json tokenizer produces for the same bytes; syntactically invalid JSON must be an error; (4) POST through "
+         "the real echo handler, then GET entities and GET changes and parse what the hub serialises with the hub's own parser: what is stored is what the payload denotes (batches of ten "
+         "before a malformed element). A panic is an observation. non-trivial = at least one entity and nesting",
+    trusted=["encoding/json's tokenizer (json.Decoder.Token/Decode): the model starts at the token stream", "the namespace manager (C13) for prefix assignment: ids are compared as expanded URIs",
+             "numbers are compared by their shortest float64 text; `recorded` is checked for its type only"],
+    assumptions=["the parser instance is used for one payload (its property-name cache is then semantically transparent)"],
+    level_text="Proof: the streaming parser, modelled branch for branch over the token stream (including the branches the tokenizer makes unreachable), applied to the serialisation of ANY value tree "
+               "(nested to any depth) returns exactly the tree's denotation under the payload's context and leaves the rest of the stream untouched (value_roundtrip, by mutual structural "
+               "induction over the nested tree); a run of well-formed entities is emitted as exactly their denotations whatever follows (elems_wellformed_prefix, collection_roundtrip); a malformed "
+               "element after n well-formed ones emits exactly those n, reports the error and looks at nothing after it (malformed_element_rejected); truncated streams are errors; every wrongly "
+               "typed member (id, deleted, recorded, props, refs, reference values, token, namespaces, missing context) is rejected for every parser state (…_must_be_…). Regenerated facts: no "
+               "unchecked type assertion and no slice/index expression on parsed data in streamparser.go, the member dispatch table, emit-after-error-check. The real parser is run on generated, "
+               "mutated and random bytes against the model and the denotation. PARTIAL: 'never a panic' is about the Go runtime — covered by the facts and the runs, not by a theorem; the GET "
+               "serialisers and ParseTransaction are covered by the correspondence only.",
+    level_note="Trusted: Lean kernel, factgen, encoding/json. Fuel: the driver runs the model with fuel = number of tokens + 2 and reports a driver error if it is ever exhausted.",
+)
+
 NOT_YET = {}
